@@ -75,7 +75,7 @@ PROPS = {
         domains=[dict(name='route', quick=32000, thorough=800000)],
         verdicts=['c02_*'],
         project={'route': proj_route_c02},
-        prop_files=[],
+        prop_files=['props/C02.v'],
         trivial_classes=('404',),
         rule=RULE_ROUTE, trusted_base=TB_ROUTING,
         assumptions=['request Content-Length header and ContentLength field are generated consistent in 90% of cases; '
@@ -87,7 +87,7 @@ PROPS = {
         domains=[dict(name='route', quick=32000, thorough=800000)],
         verdicts=['c04_*'],
         project={'route': proj_route_c04},
-        prop_files=[],
+        prop_files=['props/C04.v'],
         trivial_classes=('404', '405', '415', '406'),
         rule=RULE_ROUTE + '; for C04 only invoked requests count as non-trivial', trusted_base=TB_ROUTING,
         assumptions=[],
